@@ -1071,7 +1071,7 @@ func emitTranslated(p *pkgInfo) (out string, err error) {
 		b.WriteString("\n")
 	}
 	b.WriteString("/-! ### shrink.go: `minimize` and the minimizer -/\n\n")
-	for _, fn := range []string{"minimizer.accept", "minimizer.rShift", "minimizer.unsetBits", "minimizer.sortBits", "minimizer.binSearch", "minimize"} {
+	for _, fn := range []string{"minimizer.accept", "minimizer.rShift", "minimizer.unsetBits", "minimizer.sortBits", "minimizer.binSearch", "minimize", "compareData", "without"} {
 		b.WriteString(t.impFunction(fn, isigs))
 		b.WriteString("\n")
 	}
